@@ -1,0 +1,65 @@
+//go:build verif
+
+// Contracts for package commands (machine-checked by /verif/engine; comment-only file).
+package commands
+
+// formatFile: parse first; render the complete result into a memory buffer; only when both succeeded
+// hand that buffer to atomic.WriteFile for the same path - exactly once. A parse error or a formatting
+// error returns the error without any write to the target (C08: a file that does not parse is left as
+// it was; C18: the only write is the atomic replacement with the fully rendered text).
+//@ func (formatRunner).formatFile
+//@   requires target != nil
+//@   modifies *
+//@   callback ParseFile=0
+//@   callback FormatFile=1
+//@   callback WriteFile=2
+//@   ensures [C08] [C18] @parse: tlen() >= old(tlen()) + 1 && targ("ParseFile", 0, old(tlen())) == old(*target)
+//@   ensures [C08] [C18] @parsefail: tres1("ParseFile", old(tlen())) != nil ==> tlen() == old(tlen()) + 1 && result != nil
+//@   ensures [C08] [C18] @formatfail: tres1("ParseFile", old(tlen())) == nil && tres("FormatFile", old(tlen()) + 1) != nil ==> tlen() == old(tlen()) + 2 && result != nil
+//@   ensures [C08] [C18] @write: tres1("ParseFile", old(tlen())) == nil ==> tlen() >= old(tlen()) + 2 && targ("FormatFile", 1, old(tlen()) + 1) == tres("ParseFile", old(tlen()))
+//@        && (tres("FormatFile", old(tlen()) + 1) == nil ==> tlen() == old(tlen()) + 3 && targ("WriteFile", 0, old(tlen()) + 2) == old(*target)
+//@            && targ("WriteFile", 1, old(tlen()) + 2) == targ("FormatFile", 0, old(tlen()) + 1) && result == tres("WriteFile", old(tlen()) + 2))
+//
+// execute (format): every argument is handed to the per-file worker (iter.Map visits all of them,
+// trusted) and the per-file errors are combined - no file is skipped because another one failed.
+//@ func (formatRunner).execute
+//@   modifies *
+//@   callback Map=0
+//@   callback Combine=1
+//@   ensures [C18] @all: tlen() == old(tlen()) + 2 && targ("Map", 0, old(tlen())) == args && result == tres("Combine", old(tlen()) + 1)
+//
+// train runs the concurrent loader (outside the verified subset); parseAndInfer applies Model.Infer
+// (verified: bookings stay printable, only placeholder accounts change) to every transaction of the
+// parsed file. That the bookings of different directives do not share memory - needed to lift
+// "printable" from one transaction to the whole file - is not expressed by the parser's contract, so
+// both are trusted here.
+//@ func (inferRunner).train
+//@   trusted
+//@   modifies nothing
+//@   ensures result.1 == nil ==> result.0 != nil
+//
+//@ func (*inferRunner).parseAndInfer
+//@   trusted
+//@   modifies nothing
+//@   ensures result.1 == nil ==> prFile(result.0)
+//
+// execute (infer): train, then parse and infer, then render; with --inplace the complete rendering goes
+// into a memory buffer first and only a successful rendering is handed to atomic.WriteFile for the
+// target path - exactly once; any earlier failure returns without touching the target.
+//@ func (*inferRunner).execute
+//@   requires r != nil && cmd != nil && len(args) >= 1
+//@   modifies *
+//@   callback train=0
+//@   callback parseAndInfer=1
+//@   callback FormatFile=2
+//@   callback WriteFile=3
+//@   ensures [C18] [C15] @trainfail: tlen() >= old(tlen()) + 1 && (tres1("train", old(tlen())) != nil ==> tlen() == old(tlen()) + 1 && result != nil)
+//@   ensures [C18] [C15] @parsefail: tres1("train", old(tlen())) == nil ==> tlen() >= old(tlen()) + 2 && targ("parseAndInfer", 2, old(tlen()) + 1) == old(args[0])
+//@        && (tres1("parseAndInfer", old(tlen()) + 1) != nil ==> tlen() == old(tlen()) + 2 && result != nil)
+//@   ensures [C18] [C15] @render: tres1("train", old(tlen())) == nil && tres1("parseAndInfer", old(tlen()) + 1) == nil ==> tlen() >= old(tlen()) + 3
+//@        && targ("FormatFile", 1, old(tlen()) + 2) == tres("parseAndInfer", old(tlen()) + 1)
+//@   ensures [C18] @inplace: old(r.inplace) && tres1("train", old(tlen())) == nil && tres1("parseAndInfer", old(tlen()) + 1) == nil ==>
+//@        (tres("FormatFile", old(tlen()) + 2) != nil ==> tlen() == old(tlen()) + 3 && result != nil)
+//@        && (tres("FormatFile", old(tlen()) + 2) == nil ==> tlen() == old(tlen()) + 4 && targ("WriteFile", 0, old(tlen()) + 3) == old(args[0])
+//@            && targ("WriteFile", 1, old(tlen()) + 3) == targ("FormatFile", 0, old(tlen()) + 2) && result == tres("WriteFile", old(tlen()) + 3))
+//@   ensures [C18] @stdout: !old(r.inplace) && tres1("train", old(tlen())) == nil && tres1("parseAndInfer", old(tlen()) + 1) == nil ==> tlen() == old(tlen()) + 3
